@@ -1,6 +1,9 @@
 #!/bin/sh
-# offline build of the harness (verdict build); other variants are built on demand by ./check
+# offline build of the harness: the verdict build (ref) must succeed; the other variants used by quick tiers
+# (scalar/avx512 for C09/C10, strict for variant-tagged regression tapes) are pre-built here so the quick commands
+# only re-link; ./check rebuilds whatever changed in /repo on every run anyway.
 set -e
 cd /verif
 export CARGO_NET_OFFLINE=true
 ./check build
+./check build strict scalar avx512 || true
